@@ -70,7 +70,7 @@ def run_schedule(sched):
     def ev(k, r=0, ty="", mid=0, q=0, dig=0, con=False, cls="", tok=None):
         if frozen:
             return None
-        e = {"k": k, "t": units(w.loop), "r": r, "ty": ty, "mid": mid, "q": q, "dig": dig, "con": con, "cls": cls}
+        e = {"k": k, "t": units(w.loop), "r": r, "ty": ty, "mid": mid, "q": q, "dig": dig, "con": con, "cls": cls, "g": 0, "cb": w.loop.cb_seq, "ccb": -1}
         events.append(e)
         if tok is not None:
             raw.append((e, tok))
@@ -125,7 +125,7 @@ def run_schedule(sched):
                 for trig in sched.get("triggers", ()):
                     if trig["on"]["q"] == q and trig["on"]["copy"] == copies[q]:
                         w.loop.call_later(trig["delay"] / 1024.0, fire, trig)
-        ev(
+        e = ev(
             "tx",
             r=rnum(rec["to"]),
             ty=wire.TYPE_NAMES[m["type"]],
@@ -134,6 +134,10 @@ def run_schedule(sched):
             cls=code_class(m["code"]),
             tok=m["token"],
         )
+        if e is not None and m["type"] == 0 and len(w.rand.uniform_calls) > state.get("ucalls", 0):
+            # a new exchange was just created: the initial timeout it drew (in trace units)
+            state["ucalls"] = len(w.rand.uniform_calls)
+            e["g"] = int(round(w.rand.uniform_calls[-1][2] * 1024))
 
     def on_read(data, src):
         try:
@@ -189,11 +193,13 @@ def run_schedule(sched):
 
                 def done_cb(fut, q=q):
                     if fut.cancelled():
-                        ev("done", q=q, cls="cancelled")
+                        e = ev("done", q=q, cls="cancelled")
                     elif fut.exception() is not None:
-                        ev("done", q=q, cls=err_class(fut.exception()))
+                        e = ev("done", q=q, cls=err_class(fut.exception()))
                     else:
-                        ev("done", q=q, cls="resp")
+                        e = ev("done", q=q, cls="resp")
+                    if e is not None:
+                        e["ccb"] = getattr(fut, "_verif_cb_seq", -1)
 
                 req.response.add_done_callback(done_cb)
                 await w.loop.settle()
@@ -233,3 +239,18 @@ def run_schedule(sched):
     finally:
         w.close()
     return {"events": events, "meta": meta}
+
+
+def causal_order(events):
+    """The completion of a request is logged by a done-callback, i.e. one loop iteration after the
+    callback that completed it.  For strict validation each done event is moved to the end of the
+    events of the completing callback (where the specification's action emits it); everything else
+    keeps its order (events are logged in callback order)."""
+    keyed = []
+    for i, e in enumerate(events):
+        if e["k"] == "done" and e.get("ccb", -1) >= 0:
+            keyed.append(((e["ccb"], 1, i), e))
+        else:
+            keyed.append(((e.get("cb", 0), 0, i), e))
+    keyed.sort(key=lambda x: x[0])
+    return [e for _, e in keyed]
